@@ -38,22 +38,30 @@ BUDGET_S = {"quick": 900, "thorough": 3000}
 
 def shards(tier, seed):
     L = S.max_len(tier)
-    return [{"R": R, "H": H} for R in range(1, L + 1) for H in range(1, L + 1)]
+    out = [{"R": R, "H": H} for R in range(1, L + 1) for H in range(1, L + 1)]
+    # long references over a binary alphabet: the same token at three or more positions, so that the
+    # duplicate-collapsing logic meets flagged occurrences that are not neighbours among the occurrences
+    for R in ((4, 5, 6) if tier == "quick" else (5, 6, 7)):
+        for H in ((2, 3, 4) if tier == "quick" else (2, 3, 4, 5)):
+            out.append({"R": R, "H": H, "sigma": [0, 1]})
+    if tier == "thorough":
+        out += [{"R": 5, "H": H, "sigma": [0, 1, 2]} for H in (3, 4)]
+    return out
 
 
-def _targets(er, eh, cost, exclude_last, rows):
+def _targets(er, eh, cost, exclude_last, rows, sigma=S.SIGMA):
     """list over prefix rows of the oracle target list (sorted) or None for padding rows."""
     out = []
     nvalid = len(eh) + (0 if exclude_last else 1)
     for j in range(rows):
         if j < nvalid:
-            out.append(O.ocd_targets(er, eh[:j], cost, S.SIGMA))
+            out.append(O.ocd_targets(er, eh[:j], cost, sigma))
         else:
             out.append(None)
     return out
 
 
-def _check_batch(ctx, pairs, ref, hyp, eos, include_eos, cost, tier, tag, seed):
+def _check_batch(ctx, pairs, ref, hyp, eos, include_eos, cost, tier, tag, seed, sigma=S.SIGMA):
     N = len(pairs)
     H = hyp.size(0)
     effs = [S.eff_pair(p, eos, include_eos) for p in pairs]
@@ -85,7 +93,7 @@ def _check_batch(ctx, pairs, ref, hyp, eos, include_eos, cost, tier, tag, seed):
             er, eh = effs[n]
             if len(eh) == 0:
                 continue
-            exp = _targets(er, eh, cost, exclude_last, rows)
+            exp = _targets(er, eh, cost, exclude_last, rows, sigma)
             nt = any(t is not None and len(t) != 1 for t in exp)
             ctx.case(1, 1 if nt else 0)
             case = dict(base, ref=pairs[n][0], hyp=pairs[n][1])
@@ -120,10 +128,21 @@ def _check_batch(ctx, pairs, ref, hyp, eos, include_eos, cost, tier, tag, seed):
     # ---- hard OCD loss ---------------------------------------------------------------
     V = 3
     rng = random.Random(seed * 7919 + ref.size(0) * 31 + H)
-    logits = torch.tensor([[[round(rng.uniform(-2, 2), 3) for _ in range(V)] for _ in range(N)]
-                           for _ in range(H)])
+    for variant in ("seed", "confident"):
+        if variant == "seed":
+            logits = torch.tensor([[[round(rng.uniform(-2, 2), 3) for _ in range(V)] for _ in range(N)]
+                                   for _ in range(H)])
+        else:
+            # a confident model: all mass on one token per step, so some per-step losses are exactly zero
+            logits = torch.tensor([[[40.0 if v == (j + n) % V else 0.0 for v in range(V)] for n in range(N)]
+                                   for j in range(H)])
+        _check_loss(ctx, pairs, effs, ref, hyp, logits, eos, include_eos, cost, tier, tag, seed, sigma, variant)
+
+
+def _check_loss(ctx, pairs, effs, ref, hyp, logits, eos, include_eos, cost, tier, tag, seed, sigma, variant):
+    N, H, V = len(pairs), hyp.size(0), 3
     lsm = torch.log_softmax(logits.double(), -1).tolist()
-    weights = [None, [0.5, 2.0, 1.0]] if tier == "thorough" else [None]
+    weights = [None, [0.5, 2.0, 1.0], [0.0, 1.0, 1.0]] if tier == "thorough" else [None, [0.0, 2.0, 1.0]]
     for batch_first, reduction, weight in itertools.product((False, True), ("none", "sum", "mean"), weights):
         if eos is not None and include_eos is False and False:
             continue
@@ -132,7 +151,7 @@ def _check_batch(ctx, pairs, ref, hyp, eos, include_eos, cost, tier, tag, seed):
                   del_cost=cost[1], sub_cost=cost[2], reduction=reduction, ignore_index=-2)
         wt = None if weight is None else torch.tensor(weight)
         case = {"kind": "ocd-loss", "tag": tag, "R": ref.size(0), "H": H, "seed": seed, "weight": weight,
-                "reversed": tag.endswith("reversed"), **kw}
+                "reversed": tag.endswith("reversed"), "sigma": list(sigma), "logits": variant, **kw}
         ctx.case(1, 1)
         try:
             out = F.hard_optimal_completion_distillation_loss(l_in, r_in, h_in, weight=wt, warn=False, **kw)
@@ -144,7 +163,7 @@ def _check_batch(ctx, pairs, ref, hyp, eos, include_eos, cost, tier, tag, seed):
         nonempty = [[False] * N for _ in range(H)]
         for n in range(N):
             er, eh = effs[n]
-            tg = _targets(er, eh, cost, True, H)
+            tg = _targets(er, eh, cost, True, H, sigma)
             for j in range(H):
                 if tg[j]:
                     w = [1.0] * V if weight is None else weight
@@ -172,31 +191,42 @@ def _check_batch(ctx, pairs, ref, hyp, eos, include_eos, cost, tier, tag, seed):
                     ctx.violation({"api": "hard_ocd_loss", "symptom": "wrong-sum"}, case,
                                   {"expected": tot, "observed": out.item()})
             else:
-                vals = [exp[j][n] for j in range(H) for n in range(N) if nonempty[j][n]]
-                if all(all(r) for r in nonempty):
-                    if not S.close(out.item(), tot / (H * N), 1e-4):
-                        ctx.violation({"api": "hard_ocd_loss", "symptom": "wrong-mean"}, case,
-                                      {"expected": tot / (H * N), "observed": out.item()})
-                elif vals and not (min(vals) - 1e-4 <= out.item() <= max(vals) + 1e-4):
-                    ctx.violation({"api": "hard_ocd_loss", "symptom": "mean-outside-range"}, case,
-                                  {"range": [min(vals), max(vals)], "observed": out.item()})
+                # 'averaged' admits three readings: per sequence over the prefixes that have targets then over
+                # the batch (what the implementation documents by its code), over all H*N entries, or over all
+                # prefixes that have targets; any other value is not an average of the per-prefix losses
+                per_seq = []
+                for n in range(N):
+                    k = sum(1 for j in range(H) if nonempty[j][n])
+                    per_seq.append(sum(exp[j][n] for j in range(H)) / max(k, 1))
+                cnt = sum(1 for j in range(H) for n in range(N) if nonempty[j][n])
+                readings = [sum(per_seq) / N, tot / (H * N), tot / max(cnt, 1)]
+                if not any(S.close(out.item(), r, 1e-4) for r in readings):
+                    ctx.violation({"api": "hard_ocd_loss", "symptom": "mean-is-no-average-of-the-step-losses",
+                                   "logits": variant, "weighted": weight is not None}, case,
+                                  {"admissible": readings, "observed": out.item()})
 
 
 def run_shard(spec, tier, seed):
     ctx = Ctx()
     R, H = spec["R"], spec["H"]
-    pairs, ref, hyp = S.pair_batch(R, H)
-    pairs_r, ref_r, hyp_r = S.pair_batch(R, H, reverse=True)
-    ctx.sample({"R": R, "H": H, "N": len(pairs), "example": {"ref": pairs[5 % len(pairs)][0],
-                                                             "hyp": pairs[5 % len(pairs)][1]}})
+    sigma = tuple(spec.get("sigma", S.SIGMA))
+    long_ref = "sigma" in spec
+    pairs, ref, hyp = S.pair_batch(R, H, sigma=sigma)
+    pairs_r, ref_r, hyp_r = S.pair_batch(R, H, reverse=True, sigma=sigma)
+    ctx.sample({"R": R, "H": H, "alphabet": list(sigma), "N": len(pairs),
+                "example": {"ref": pairs[5 % len(pairs)][0], "hyp": pairs[5 % len(pairs)][1]}})
     ci = 0
-    for eos, include_eos in S.eos_cfgs():
-        for cost in S.costs(tier):
+    eos_tok = max(sigma)
+    cfgs = [(None, False), (eos_tok, False), (eos_tok, True)]
+    costs = S.costs(tier)[:3] if long_ref else S.costs(tier)
+    for eos, include_eos in cfgs:
+        for cost in costs:
             ci += 1
-            if tier == "thorough" or ci % 2 == 0:
-                _check_batch(ctx, pairs, ref, hyp, eos, include_eos, cost, tier, "all-pairs", seed)
-            if tier == "thorough" or ci % 2 == 1:
-                _check_batch(ctx, pairs_r, ref_r, hyp_r, eos, include_eos, cost, tier, "all-pairs-reversed", seed)
+            if (tier == "thorough" and not long_ref) or ci % 2 == 0:
+                _check_batch(ctx, pairs, ref, hyp, eos, include_eos, cost, tier, "all-pairs", seed, sigma)
+            if (tier == "thorough" and not long_ref) or ci % 2 == 1:
+                _check_batch(ctx, pairs_r, ref_r, hyp_r, eos, include_eos, cost, tier, "all-pairs-reversed", seed,
+                             sigma)
     # hypotheses with >=1 counted token everywhere => sum/mean reductions are constrained:
     # eos unset makes every stored token counted
     return ctx
@@ -207,11 +237,13 @@ def replay(case):
     if case["kind"] == "oc":
         ref = torch.tensor(case["ref"], dtype=torch.long).view(-1, 1)
         hyp = torch.tensor(case["hyp"], dtype=torch.long).view(-1, 1)
+        sg = tuple(sorted(set(case["ref"]) | set(case["hyp"]) | set(S.SIGMA)))
         _check_batch(ctx, [(tuple(case["ref"]), tuple(case["hyp"]))], ref, hyp, case["eos"],
-                     case["include_eos"], tuple(case["cost"]), "thorough", "replay", 0)
+                     case["include_eos"], tuple(case["cost"]), "thorough", "replay", 0, sg)
     else:
-        pairs, ref, hyp = S.pair_batch(case["R"], case["H"], reverse=case["reversed"])
+        sg = tuple(case.get("sigma", S.SIGMA))
+        pairs, ref, hyp = S.pair_batch(case["R"], case["H"], reverse=case["reversed"], sigma=sg)
         _check_batch(ctx, pairs, ref, hyp, case["eos"], case["include_eos"],
                      (case["ins_cost"], case["del_cost"], case["sub_cost"]), "thorough", case["tag"],
-                     case["seed"])
+                     case["seed"], sg)
     return ctx
